@@ -23,7 +23,7 @@ func (c05) Budget(tier string) int {
 	if tier == "thorough" {
 		return 200000
 	}
-	return 6000
+	return 30000
 }
 
 func (c05) Describe() engine.Info {
@@ -32,7 +32,7 @@ func (c05) Describe() engine.Info {
 			"Oracle: reference SM83 in lock step: halted state after every cycle, no instruction boundary advances PC while idle, wake only on an enabled request, dispatch length, PC/registers after the doubled instruction. Signature = (class, idle-length bucket, line enabled?, what followed).",
 		Assumptions: []string{
 			"leaving HALT with IME=0 costs one machine cycle before the next instruction (DMG behaviour pinned by mooneye halt_ime0_nointr_timing; the statement does not fix it)",
-			"HALT directly after EI with a request already pending (class ime1-pending) is documented in more than one way for the DMG (return address at or after the HALT); only what all readings share is judged: one dispatch, each handler instruction once, request acknowledged",
+			"HALT directly after EI with a request already pending (class ime1-pending) is documented in more than one way for the DMG (return address at or after the HALT); only what all readings share is judged: one dispatch, each handler instruction once, request acknowledged, and the length of that dispatch (6 machine cycles: the statement gives the dispatch after HALT with the master enable set one extra cycle)",
 		},
 		RequiredProbes: []string{"ei_halt_pending", "irq_after_halt", "halt_idle_cycles", "halt_bug", "wake_dispatch", "wake_no_dispatch", "not_enabled_line_ignored"},
 		RealComponents: realComponents, StubComponents: stubComponents,
@@ -192,6 +192,23 @@ func executeEIHalt(sc *engine.Scenario, res *engine.Result) *engine.Result {
 	rg := m.CPU.VerifGetRegs()
 	rg.PC = lsCodeWRAM
 	m.CPU.VerifSetRegs(rg)
+	// the HALT is instruction number 3 + fillers + 2 of the program; the dispatch that follows it is
+	// "the request dispatched after HALT with the master enable set": one machine cycle longer (6)
+	haltNo := 3 + (int(sc.P("halt_at", 0)) - 1 - lsCodeWRAM - 7) + 2
+	vector := uint16(0x40 + 8*sc.P("line", 0))
+	instrs, haltEnd, vecAt := 0, uint64(0), uint64(0)
+	m.OnCycle = func() {
+		if !m.CPU.VerifAtBoundary() {
+			return
+		}
+		instrs++
+		if instrs == haltNo {
+			haltEnd = m.N
+		}
+		if vecAt == 0 && haltEnd != 0 && m.CPU.VerifGetRegs().PC == vector {
+			vecAt = m.N
+		}
+	}
 	pi := machine.Protect(func() { m.RunCycles(sc.Cycles) })
 	res.Cycles = m.N
 	if pi != nil {
@@ -214,6 +231,8 @@ func executeEIHalt(sc *engine.Scenario, res *engine.Result) *engine.Result {
 		res.Fail("C05/ime1-pending/handler-instruction-repeated", m.N, "%s: the handler's first instruction executed %d times for one request", where, rg.B)
 	case iff&(1<<line) != 0:
 		res.Fail("C05/ime1-pending/not-acknowledged", m.N, "%s: the request flag is still set", where)
+	case vecAt != 0 && vecAt-haltEnd != 6:
+		res.Fail("C05/ime1-pending/dispatch-length", m.N, "%s: the dispatch out of the HALT took %d machine cycles (HALT finished at cycle %d, handler reached at cycle %d); after HALT with the master enable set the dispatch takes one extra machine cycle: 6", where, vecAt-haltEnd, haltEnd, vecAt)
 	case !(rg.C == 2 || rg.C == 3 || (rg.C == 0 && m.CPU.VerifHalted())):
 		res.Fail("C05/ime1-pending/following-instructions", m.N, "%s: the instructions after the HALT did not execute once each (or twice for the first, or not at all with the CPU idling in a re-executed HALT)", where)
 	}
